@@ -12,7 +12,7 @@ CONSTANTS
   Styles = {"self"}
   PosKinds = {"locate", "read", "attr"}
   Positions <- PosLarge
-  Offsets <- OffLarge
+  Offsets <- OffSmall
 SPECIFICATION Spec
 VIEW mcview
 INVARIANT TypeOK
